@@ -59,7 +59,29 @@ def surrogate(fvals, lps, w):
     return (r.reshape(-1, *([1] * (fvals.dim() - 1))) * fvals).sum(0) / r.sum()
 
 
-def run_case(tid, sampler, nsamples, nburn, placement, seed, tuple_out=False, bck=False):
+def mh_continuity(x0, logp_pts, sample_pts, lp_of, nburn, nsamples):
+    """Metropolis chain with unknown accept decisions: a proposal that does not lower log p is accepted with certainty, so after every
+    step the set of positions the chain can be at is {proposal} + {earlier possible positions with a strictly higher log p}.  Returns
+    None if the observed calls are consistent with ONE chain that burns in from x0 and is then collected (McChain.Continuous), else why not.
+    Observed: log p at x0, one proposal per burn-in step, log p at the position collection starts from, one proposal per collected sample."""
+    if len(logp_pts) != nburn + nsamples + 2 or len(sample_pts) != nsamples:
+        return None                      # another call structure: left to the protocol part of the trace
+    lp = lambda x: float(lp_of(x))
+    S = [x0]
+    for p in logp_pts[1:1 + nburn]:
+        S = [p] + [s_ for s_ in S if lp(s_) > lp(p)]
+    start = logp_pts[1 + nburn]
+    if not any(torch.equal(start, s_) for s_ in S):
+        return "collection starts at %s, which the burned-in chain cannot be at (possible: %s)" % (start.tolist(), [s_.tolist() for s_ in S][:4])
+    S = [start]
+    for j, p in enumerate(logp_pts[2 + nburn:]):
+        S = [p] + [s_ for s_ in S if lp(s_) > lp(p)]
+        if not any(torch.equal(sample_pts[j], s_) for s_ in S):
+            return "sample %d is %s, which the chain cannot be at after that step (possible: %s)" % (j + 1, sample_pts[j].tolist(), [s_.tolist() for s_ in S][:4])
+    return None
+
+
+def run_case(tid, sampler, nsamples, nburn, placement, seed, tuple_out=False, bck=False, x0val=0.0):
     g = torch.Generator().manual_seed(seed)
     a = (torch.randn(2, generator=g, dtype=DT) * 0.5).requires_grad_()
     b = (torch.randn(2, generator=g, dtype=DT) * 0.3).requires_grad_()
@@ -117,10 +139,10 @@ def run_case(tid, sampler, nsamples, nburn, placement, seed, tuple_out=False, bc
         # backward options naming OTHER sampler settings: they configure the backward pass only - the forward chain is the one
         # the forward options ask for, and the backward pass re-uses the forward samples
         opts["bck_options"] = {"nsamples": nsamples + 2, "nburnout": nburn + 1, "step_size": 0.1, "lb": -1.0, "ub": 1.0}
-    x0 = torch.zeros(1, dtype=DT)
+    x0 = torch.full((1,), float(x0val), dtype=DT)
     torch.manual_seed(seed)
     cfg = {"sampler": sampler if sampler != "_dummy1d" else "dummy1d", "nsamples": nsamples, "nburn": nburn, "placement": placement,
-           "seed": seed, "tuple": tuple_out, "bck_options_given": bool(bck)}
+           "seed": seed, "tuple": tuple_out, "bck_options_given": bool(bck), "x0": float(x0val)}
     ev = []
     verd = []
     exc = None
@@ -177,6 +199,12 @@ def run_case(tid, sampler, nsamples, nburn, placement, seed, tuple_out=False, bc
         fv = torch.stack([f_math(x_, a, b) * (2.0 if k == 1 else 1.0) for x_ in xs])
         lps = torch.stack([logp_math(x_, mu, s) for x_ in xs])
         return surrogate(fv, lps, w0)
+    if sampler == "mh":
+        with torch.no_grad():
+            whym = mh_continuity(x0, [c[2] for c in fwd if c[0] == "logp"], xs, lambda x_: logp_math(x_, mu, s), nburn, nsamples)
+        verd.append(["mh_samples_continue_the_burned_in_chain", whym is None])
+        if whym:
+            cfg["mh_chain"] = whym
     if len(xs) > 0:
         for k, o in enumerate(outs):
             rv = ref_value(k)
@@ -217,7 +245,12 @@ def run_case(tid, sampler, nsamples, nburn, placement, seed, tuple_out=False, bc
                 Sr = sum((x * c).sum() for x, c in zip(r1, c2))
                 g2 = torch.autograd.grad(S, leaves_f + leaves_p, allow_unused=True)
                 r2 = torch.autograd.grad(Sr, leaves_f + leaves_p, allow_unused=True)
-                ok2 = all(torch.allclose(x if x is not None else torch.zeros_like(l), y if y is not None else torch.zeros_like(l), atol=1e-9, rtol=1e-7)
+                # (absolute tolerance relative to the largest second-order entry: far from the mode the scores are O(100) and small entries
+                # are differences of large terms)
+                with torch.no_grad():
+                    score = max(float(((x_ - mu) / s ** 2).abs().max()) for x_ in xs)
+                sc2 = max([1.0, score ** 2] + [float(y.abs().max()) for y in r2 if y is not None])
+                ok2 = all(torch.allclose(x if x is not None else torch.zeros_like(l), y if y is not None else torch.zeros_like(l), atol=1e-9 * sc2, rtol=1e-7)
                           for x, y, l in zip(g2, r2, leaves_f + leaves_p))
                 verd.append(["second_order_matches_surrogate", bool(ok2)])
             except Exception as e:
@@ -327,6 +360,14 @@ def run(ctx):
                     tid += 1
                     traces.append(safe_case(tid, sampler, ns, nb, placement, ctx.seed + tid, bck=True))
                     ctx.case(key=(sampler, ns, nb, placement, "bck_options"))
+    # mh started far from the typical set: the burn-in moves the chain (every uphill proposal is accepted with certainty), so where the
+    # collection starts from is observable
+    for (ns, nb) in ((1, 8), (3, 8), (5, 12)) + (((2, 20), (6, 6)) if thorough else ()):
+        for placement in ("explicit", "object"):
+            for x0v in (25.0, -40.0):
+                tid += 1
+                traces.append(safe_case(tid, "mh", ns, nb, placement, ctx.seed + tid, x0val=x0v))
+                ctx.case(key=("mh-far-start", ns, nb, placement, x0v))
     rej = ctx.validate_traces("Trace_McChain.tla", "Trace_McChain.cfg", traces, shards=12)
 
     def m_verdict(t):
@@ -364,6 +405,8 @@ def run(ctx):
         nx = extra_numeric(ctx)
     from vlib import gradpattern
     ctx.replayed = gradpattern.replay(ctx, ["mcquad"], "mc")
+    from vlib import objstate
+    ctx.replayed += objstate.replay(ctx, ["mcquad"], "mc")
     ctx.samples.append(traces[7])
     ctx.notes.update(executions=len(traces), extra_numeric_cases=nx)
     ctx.assumptions += [
